@@ -97,28 +97,30 @@ def _sat(extra):
 
 def decide(options):
     """options: list of z3 Bool terms, mutually exclusive and exhaustive under the path condition.
-    Returns the index taken on this path; other feasible ones are queued."""
+    Returns the index taken on this path; other feasible ones are queued.  Every decision (forced ones too) is recorded in
+    the prefix so that a re-execution needs no solver call until it reaches new ground."""
     fr = ctx.frames[-1]
+    if fr.pos < len(fr.prefix):
+        i, forked = fr.prefix[fr.pos]
+        fr.pos += 1
+        if i >= len(options):
+            raise Unsupported('non-deterministic replay of decision prefix')
+        ctx.solver.add(options[i])
+        if forked:
+            fr.pc.append(options[i])
+        return i
     feas = [i for i, c in enumerate(options) if _sat(c)]
     if not feas:
         raise Infeasible()
-    if len(feas) == 1:
-        i = feas[0]
-        ctx.solver.add(options[i])
-        return i
-    if fr.pos < len(fr.prefix):
-        i = fr.prefix[fr.pos]
-        fr.pos += 1
-        if i not in feas:
-            raise Unsupported('non-deterministic replay of decision prefix')
-    else:
-        for j in feas[1:]:
-            fr.work.append(fr.prefix[:fr.pos] + [j])
-        i = feas[0]
-        fr.prefix.append(i)
-        fr.pos += 1
+    i = feas[0]
+    forked = len(feas) > 1
+    for j in feas[1:]:
+        fr.work.append(fr.prefix[:fr.pos] + [(j, True)])
+    fr.prefix.append((i, forked))
+    fr.pos += 1
     ctx.solver.add(options[i])
-    fr.pc.append(options[i])
+    if forked:
+        fr.pc.append(options[i])
     return i
 
 
@@ -231,15 +233,24 @@ class SymNum(Sym):
         return None
 
     def _c(self, o, f):
+        if isinstance(o, float) and (o != o or o in (float('inf'), float('-inf'))):
+            # this proxy stands for a finite number: comparisons with nan/inf are decided
+            return f(0.0, o)
         oe = self._term(o)
         if oe is None:
             raise TypeError(f"'<' not supported between instances of '{self.pytype.__name__}' and '{type(o).__name__}'")
         return SymBool(f(self.e, oe))
 
+    @staticmethod
+    def _nonfinite(o):
+        return isinstance(o, float) and (o != o or o in (float('inf'), float('-inf')))
+
     def __eq__(self, o):
+        if self._nonfinite(o): return False
         return False if self._term(o) is None else SymBool(self.e == self._term(o))
 
     def __ne__(self, o):
+        if self._nonfinite(o): return True
         return True if self._term(o) is None else SymBool(self.e != self._term(o))
 
     def __lt__(self, o): return self._c(o, lambda a, b: a < b)
@@ -374,6 +385,13 @@ class SymEnum(Sym):
     def __ne__(self, o): raise Unsupported('raw != on SymEnum')
 
 
+class SymOptional(Sym):
+    """result of a modelled call that returns None or some (opaque) object: only `is None` / truthiness are defined"""
+
+    def __init__(self, present):
+        self.present = present      # z3 Bool: value is not None
+
+
 class SymList(Sym):
     """list with symbolic length: n0 anonymous members (pairwise distinct, distinct from every designated object)
     followed by a concrete suffix of designated members."""
@@ -418,6 +436,8 @@ def truth(v):
             return truth(v.truthy())
         if isinstance(v, SymList):
             return truth(v.n > 0)
+        if isinstance(v, SymOptional):
+            return decide([v.present, z3.Not(v.present)]) == 0
         raise Unsupported(f'truth of {type(v).__name__}')
     return bool(v)
 
@@ -468,6 +488,13 @@ def len_(v):
 
 
 def is_(a, b):
+    if isinstance(a, SymOptional) or isinstance(b, SymOptional):
+        o, other = (a, b) if isinstance(a, SymOptional) else (b, a)
+        if other is None:
+            return SymBool(z3.Not(o.present))
+        if o is other:
+            return True
+        raise Unsupported('identity of optional with non-None')
     if isinstance(a, SymEnum):
         return a.is_(b)
     if isinstance(b, SymEnum):
@@ -519,6 +546,12 @@ def in_(a, c):
                 return SymBool(z3.Contains(z3.StringVal(c), a.e))
             raise TypeError("'in <string>' requires string as left operand")
         if isinstance(c, (list, tuple)):
+            if len(c) > 3 and not any(isinstance(x, Sym) for x in c):
+                # one query first: can a equal any member at all?
+                terms = [eq_(a, x) for x in c]
+                terms = [t for t in terms if t is not False]
+                if not terms or (all(isinstance(t, SymBool) for t in terms) and not _sat(z3.Or([t.e for t in terms]))):
+                    return False
             for x in c:
                 if truth(eq_(a, x)):
                     return True
